@@ -16,7 +16,14 @@ OTHERS = ['gen_c06', 'gen_c07', 'gen_c08', 'gen_c09', 'gen_c09', 'gen_c11', 'gen
 
 def gen(rng):
     if rng.random() < 0.5:
-        return getattr(gens2, rng.choice(OTHERS))(rng)
+        h = getattr(gens2, rng.choice(OTHERS))(rng)
+        for st in h:
+            if st['op'] == 'check':
+                # C04 speaks about the layout only: the value-level clauses of the other properties (and
+                # their known findings) are judged by their own checks
+                st['what'] = [w for w in st.get('what', gens2.CHK_ALL) if w in ('raw', 'layout', 'cov')] or ['layout']
+                st['l1only'] = True
+        return [st for st in h if st['op'] not in ('sameas', 'unchanged', 'chkbits', 'sameas_if')]
     h = gens.gen_c01_history(rng, max_steps=8)
     for st in h:
         if st['op'] == 'check':
